@@ -1970,4 +1970,137 @@ theorem duringObs_length (p : Prog) : (duringObs p).1.length = duringCount p := 
   simp only [duringObs, duringCount]
   cases hs : p.suppress <;> cases hst : p.store <;> simp [removeAll_spec _ hnd]
 
+/-! ## what the final state means -/
+
+theorem result_cases {p : Prog} {w : W} (h : Inv1 p w) :
+    (w.sp.tcall = .pending ∧ w.sp.success = none ∧ getResult w.sp = .noresult) ∨
+    (w.sp.tcall = .called ∧ w.sp.success = none ∧ getResult w.sp = .timeout) ∨
+    (w.sp.tcall = .cancelled ∧ ∃ b, w.sp.success = some b ∧ getResult w.sp = .value b) := by
+  cases htc : w.sp.tcall with
+  | unset => exact absurd htc h.nounset
+  | pending =>
+    obtain ⟨h1, h2⟩ := h.pend htc
+    exact Or.inl ⟨rfl, h1, by simp [getResult, h1, h2]⟩
+  | called =>
+    obtain ⟨_, h2, h3, _⟩ := h.called htc
+    exact Or.inr (Or.inl ⟨rfl, h3, by simp [getResult, h2]⟩)
+  | cancelled =>
+    obtain ⟨h1, h2⟩ := h.cancelled htc
+    obtain ⟨b, hb⟩ := Option.isSome_iff_exists.mp h1
+    exact Or.inr (Or.inr ⟨rfl, b, hb, by simp [getResult, h2, hb]⟩)
+
+theorem mem_sdOf {q : List (DCall (QAct CAct))} {t : Nat} {r : Option Exc} (h : (t, r) ∈ sdOf q) :
+    ∃ c ∈ q, c.time = t := by
+  simp only [sdOf, List.mem_filterMap] at h
+  obtain ⟨c, hc, hm⟩ := h
+  refine ⟨c, hc, ?_⟩
+  split at hm
+  · injection hm with hm; injection hm with hm _
+  · cases hm
+
+theorem sdOf_of_mem {q : List (DCall (QAct CAct))} {c : DCall (QAct CAct)} (hc : c ∈ q) (h : isSD c = true) : sdOf q ≠ [] := by
+  intro hq
+  have : ∀ x ∈ q, (match x.act with | .user _ (.stageDone r) => some (x.time, r) | _ => none) = none :=
+    List.filterMap_eq_nil_iff.mp hq
+  have := this c hc
+  rcases c with ⟨t, a⟩
+  cases a with
+  | timeout => simp [isSD] at h
+  | user l a => cases a <;> simp [isSD] at h this
+
+/-- the meaning of the final state, by the stages `pre` that ran -/
+structure FinalSem (p : Prog) (w : W) (pre : List (SName × Stage)) : Prop where
+  path : path p = pre ++ future p w.u
+  len : pre.length = w.u.stages.length
+  seq : seqOk pre w.u.stages (some 0) = true
+  book : Book pre w.u
+  rec_iff : (∃ b, w.sp.success = some b) ↔ (future p w.u = [] ∧ InTimeP p pre w.u.stages)
+  recd : ∀ b, w.sp.success = some b → b = (if w.u.fails then 0 else 1) ∧
+    (w.u.fails = true ↔ (∃ x ∈ pre, behOk x.2.beh = false) ∨ w.u.forced = true) ∧ ∀ c ∈ w.calls, isLeftover c = true
+  pending_iff : w.sp.tcall = .pending ↔
+    (¬ (future p w.u = [] ∧ InTimeP p pre w.u.stages) ∧ ∃ s ∈ p.stops, s < p.timeout)
+
+theorem final_sem (p : Prog) : ∃ pre, FinalSem p (afterIter p) pre := by
+  obtain ⟨⟨hi, hc⟩, hcr, hnd⟩ := end_state p
+  -- the part that only needs `rec_iff`
+  have hpend : ∀ pre, ((∃ b, (afterIter p).sp.success = some b) ↔ (future p (afterIter p).u = [] ∧ InTimeP p pre (afterIter p).u.stages)) →
+      ((afterIter p).sp.tcall = .pending ↔
+        (¬ (future p (afterIter p).u = [] ∧ InTimeP p pre (afterIter p).u.stages) ∧ ∃ s ∈ p.stops, s < p.timeout)) := by
+    intro pre hrec
+    constructor
+    · intro hp
+      obtain ⟨hs, _⟩ := hi.pend hp
+      refine ⟨fun h => ?_, ?_⟩
+      · obtain ⟨b, hb⟩ := hrec.mpr h
+        rw [hs] at hb; cases hb
+      · rcases hi.cause hcr with h1 | h1 | ⟨s, hs1, hs2⟩
+        · rw [hp] at h1; cases h1
+        · rw [hs] at h1; cases h1
+        · refine ⟨s, hs1, ?_⟩
+          have htc := hi.tcount
+          rw [hp] at htc
+          simp only [if_true] at htc
+          obtain ⟨x, hx⟩ := List.exists_mem_of_length_pos (by omega : 0 < ((afterIter p).calls.filter (·.act.isTimeout)).length)
+          obtain ⟨hx1, hx2⟩ := List.mem_filter.mp hx
+          have := hnd hs x hx1
+          rw [hi.ttime x hx1 hx2] at this
+          omega
+    · rintro ⟨hn, s, hs1, hs2⟩
+      rcases result_cases hi with h | h | h
+      · exact h.1
+      · have := (hi.called h.1).2.2.2 s hs1; omega
+      · obtain ⟨b, hb, _⟩ := h.2
+        exact absurd (hrec.mp ⟨b, hb⟩) hn
+  rcases hc with hc | hc
+  · -- the chain is still waiting: nothing recorded
+    obtain ⟨pre0, n, st, h1, h2, h3, h4, h5, h6, h7, h8, h9, h10, h11⟩ := hc.ex
+    have hrec : (∃ b, (afterIter p).sp.success = some b) ↔
+        (future p (afterIter p).u = [] ∧ InTimeP p (pre0 ++ [(n, st)]) (afterIter p).u.stages) := by
+      constructor
+      · rintro ⟨b, hb⟩; rw [h11] at hb; cases hb
+      · rintro ⟨_, hin⟩
+        exfalso
+        rcases hin with hin | ⟨over, ho1, ho2, ho3⟩
+        · rw [allSyncL_snoc, h4] at hin; simp at hin
+        · rw [ho1] at h7
+          obtain ⟨c, hc1, hc2⟩ := mem_sdOf (t := over) (r := resOf st.beh) (by rw [h7]; simp)
+          have hlt := hnd h11 c hc1
+          rcases hi.cause hcr with h | h | ⟨s, hs1, hs2⟩
+          · have := (hi.called h).1; omega
+          · rw [h11] at h; cases h
+          · have := ho3 s hs1; omega
+    exact ⟨pre0 ++ [(n, st)], h1, h2, h3, h9, hrec, (fun b hb => by rw [h11] at hb; cases hb), hpend _ hrec⟩
+  · obtain ⟨pre, h1, h2, h3, h4, h5, h6, h7, h8, h9⟩ := hc.ex
+    have hfut : future p (afterIter p).u = [] := by simp [future, h6]
+    have hrec : (∃ b, (afterIter p).sp.success = some b) ↔
+        (future p (afterIter p).u = [] ∧ InTimeP p pre (afterIter p).u.stages) := by
+      constructor
+      · rintro ⟨b, hb⟩; exact ⟨hfut, (h8 b hb).2⟩
+      · rintro ⟨_, hin⟩
+        cases hs : (afterIter p).sp.success with
+        | none => exact absurd hin (h9 hs)
+        | some b => exact ⟨b, rfl⟩
+    refine ⟨pre, by rw [hfut]; simpa using h1, h2, h3, h5, hrec, ?_, hpend _ hrec⟩
+    intro b hb
+    refine ⟨(h8 b hb).1, h7, ?_⟩
+    intro c hc
+    have hnp : (afterIter p).sp.tcall ≠ .pending := by
+      intro hp; have := (hi.pend hp).1; rw [hb] at this; cases this
+    have htc := hi.tcount
+    simp only [hnp, if_false, List.length_eq_zero_iff] at htc
+    have hnt : c.act.isTimeout = false := by
+      cases hto : c.act.isTimeout with
+      | false => rfl
+      | true =>
+        have : c ∈ (afterIter p).calls.filter (·.act.isTimeout) := List.mem_filter.mpr ⟨hc, hto⟩
+        rw [htc] at this; cases this
+    have hnsd : isSD c = false := by
+      cases hsd : isSD c with
+      | false => rfl
+      | true => exact absurd h4 (sdOf_of_mem hc hsd)
+    rcases c with ⟨t, a⟩
+    cases a with
+    | timeout => simp [QAct.isTimeout] at hnt
+    | user l a => cases a <;> simp [isSD] at hnsd <;> rfl
+
 end TTV.Props.C14
